@@ -43,16 +43,16 @@ theorem days_eq (y : Int) (mm dd : Nat) (hy : -32768 ≤ y ∧ y ≤ 32767) (hm 
     omega
   rw [wrapS32_id _ (by omega), mkDur_id _ (by omega)]
 
-/-- `civil_from_days (days_from_civil t) = t` for every existing date with a representable year. -/
-theorem round_trip_inv_nat (y : Int) (mm dd : Nat) (hy : -32768 ≤ y ∧ y ≤ 32767) (hm : 1 ≤ mm ∧ mm ≤ 12)
+/-- the era decomposition of `days_from_civil t` is `t` again -/
+theorem civT_days (y : Int) (mm dd : Nat) (hy : -32768 ≤ y ∧ y ≤ 32767) (hm : 1 ≤ mm ∧ mm ≤ 12)
     (hd : 1 ≤ dd ∧ dd ≤ 31) (hv : dd ≤ Spec.monthLength y mm) :
-    Gen.civil_from_days (Gen.days_from_civil y (mm : Int) (dd : Int)) = (y, (mm : Int), (dd : Int)) := by
+    civT (Gen.days_from_civil y (mm : Int) (dd : Int)) = (y, (mm : Int), (dd : Int)) := by
   obtain ⟨e1, e2, e3⟩ := days_eq y mm dd hy hm hd hv
   generalize hy1 : y - (if mm ≤ 2 then 1 else 0) = y1 at *
   generalize hyoe : (y1 % 400).toNat = yoe at *
   generalize hdoe : N.dfcDoe yoe (N.dfcDoy mm dd) = doe at *
   have hyoe' : (yoe : Int) = y1 % 400 := by rw [← hyoe]; omega
-  rw [e1, civil_eq]
+  rw [e1]
   have hera : eraOf (y1 / 400 * 146097 + (doe : Int) - 719468) = y1 / 400 := by unfold eraOf; omega
   have hdoe' : doeOf (y1 / 400 * 146097 + (doe : Int) - 719468) = doe := by unfold doeOf; omega
   unfold civT
@@ -61,6 +61,13 @@ theorem round_trip_inv_nat (y : Int) (mm dd : Nat) (hy : -32768 ≤ y ∧ y ≤ 
     rw [← hy1] at hyoe' ⊢
     split <;> (push_cast; omega)
   rw [hyy]
+
+/-- `civil_from_days (days_from_civil t) = t` for every existing date with a representable year. -/
+theorem round_trip_inv_nat (y : Int) (mm dd : Nat) (hy : -32768 ≤ y ∧ y ≤ 32767) (hm : 1 ≤ mm ∧ mm ≤ 12)
+    (hd : 1 ≤ dd ∧ dd ≤ 31) (hv : dd ≤ Spec.monthLength y mm) :
+    Gen.civil_from_days (Gen.days_from_civil y (mm : Int) (dd : Int)) = (y, (mm : Int), (dd : Int)) := by
+  rw [civil_eq, civT_days y mm dd hy hm hd hv]
+  simp only
   unfold Gen.mkYear Gen.mkMonth Gen.mkDay
   rw [wrapS16_id _ (by omega), wrapU8_id _ (by omega), wrapU8_id _ (by omega)]
 
